@@ -63,7 +63,8 @@ def generate(rng, tier):
             ctx = 'top'      # timedelta(seconds=...) cannot hold nanosecond-clock values
         core = [['time_split', ['nth', 0], a, i, closing, incl, [['tap', 1]] + inner]]
         ast = [['group', ['comp', ['nth', 0], ['mod', 2]], core]] if ctx == 'group' else core
-        cases.append({'ast': ast, 'trace': trace, 'cfg': [a, i, closing is not None, incl], 'ctx': ctx})
+        cases.append({'ast': ast, 'trace': trace, 'cfg': [a, i, closing is not None, incl], 'ctx': ctx,
+                      'unit': rng.choice(['s', 'ms700', 'us', 'h', 'day', 'h36'])})
     return cases
 
 
@@ -75,9 +76,13 @@ def run_datetime(case):
     a, i, has_closing, incl = case['cfg']
     base = datetime(2024, 1, 1)
     ctx = muxlib.Ctx(lambda x: None)
-    op = rs.data.time_split(time_mapper=lambda x: base + timedelta(seconds=x[0]),
-                            active_timeout=timedelta(seconds=a) if a else None,
-                            inactive_timeout=timedelta(seconds=i) if i else None,
+    # one time unit of the integer model = 1 s, or 700 ms, 1 us, 1 h, 1 day, 36 h (microsecond resolution, days
+    # part of timedelta, non-dyadic fractions of a second): the decisions must not depend on the unit
+    unit = {'s': timedelta(seconds=1), 'ms700': timedelta(milliseconds=700), 'us': timedelta(microseconds=1),
+            'h': timedelta(hours=1), 'day': timedelta(days=1), 'h36': timedelta(hours=36)}[case.get('unit', 's')]
+    op = rs.data.time_split(time_mapper=lambda x: base + x[0] * unit,
+                            active_timeout=a * unit if a else None,
+                            inactive_timeout=i * unit if i else None,
                             closing_mapper=(lambda x: x[1] == 1) if has_closing else None,
                             include_closing_item=bool(incl), pipeline=rx.pipe(muxlib.tap(ctx, 1)))
     store = rs.state.StoreManager(store_factory=rs.state.MemoryStore)
